@@ -35,8 +35,15 @@ pub fn fresh_eval(prop: &str, case: &Case) -> Option<(Vec<Violation>, Vec<Vec<u8
 
 fn fails(prop: &str, case: &Case, target: &Violation) -> Option<Violation> {
     crate::check::PROGRESS.fetch_add(1, std::sync::atomic::Ordering::Relaxed);
-    let (own, _) = fresh_eval(prop, case)?;
-    own.into_iter().find(|v| v.oracle == target.oracle)
+    // a double-execution difference recurs with high probability only: a few attempts
+    let attempts = if target.oracle == "double-exec" { 4 } else { 1 };
+    for _ in 0..attempts {
+        let (own, _) = fresh_eval(prop, case)?;
+        if let Some(v) = own.into_iter().find(|v| v.oracle == target.oracle) {
+            return Some(v);
+        }
+    }
+    None
 }
 
 fn drop_op(case: &Case, phase: usize, thread: usize, op: usize) -> Option<Case> {
